@@ -1,4 +1,4 @@
 SPECIFICATION Spec
 CONSTANT Tier = "thorough"
-INVARIANTS ParamsOK QuatNorm Hover FreeFall NewtonWorld EulerLaw ZeroMoment Equivariant GxOK MotorLaw
+INVARIANTS ParamsOK QuatNorm Hover FreeFall NewtonWorld EulerLaw Lever ZeroMoment Equivariant GxOK MotorLaw
 CHECK_DEADLOCK FALSE
